@@ -379,7 +379,5 @@ if __name__ == '__main__':
         ex = extract()
     except XErr as e:
         print('EXTRACTION FAILED:', e); sys.exit(3)
-    json.dump(ex, open('extracted.json', 'w'), indent=1)
-    for S in STRUCTS:
-        print(S, sorted(ex[S].keys()))
-    print(json.dumps(ex['Pre']['mut.read_push'])[:600])
+    json.dump(ex, open(sys.argv[2] if len(sys.argv) > 2 else 'extracted.json', 'w'), indent=1)
+    print('extracted', sum(len(ex[S]) for S in STRUCTS), 'views of', len(STRUCTS), 'structs')
